@@ -974,7 +974,14 @@ def _load_data_2(rec, context):
 @saver(Data, version=3)
 def _save_data_3(data, context):
     result = _save_data_2(data, context)
-    result['_key_joins'] = [[context.id(k), context.id(v0), context.id(v1)]
+
+    def save_cid(cids):
+        # Protocol 3 stores a single ComponentID on each side of a join
+        if len(cids) != 1:
+            raise GlueSerializeError("Protocol 3 cannot store joins on several attributes")
+        return context.id(cids[0])
+
+    result['_key_joins'] = [[context.id(k), save_cid(v0), save_cid(v1)]
                             for k, (v0, v1) in data._key_joins.items()]
     return result
 
@@ -983,7 +990,8 @@ def _save_data_3(data, context):
 def _load_data_3(rec, context):
     result = _load_data_2(rec, context)
     yield result
-    result._key_joins = dict((context.object(k), (context.object(v0), context.object(v1)))
+    # Joins are now defined on tuples of ComponentIDs
+    result._key_joins = dict((context.object(k), ((context.object(v0),), (context.object(v1),)))
                              for k, v0, v1 in rec['_key_joins'])
 
 
